@@ -956,6 +956,10 @@ class ShortIntegrationFrameComputer(LinearFilterBankFrameComputer):
         # given a buffer, compute its fourier transform. Always copies
         # the data
         assert len(buff) <= self._dft_size
+        # the transforms below are carried out in double precision
+        buff = np.asarray(
+            buff, dtype=np.complex128 if np.iscomplexobj(buff) else np.float64
+        )
         if config.USE_FFTPACK and self._real:
             from scipy import fftpack
 
